@@ -1,5 +1,6 @@
 import RF.Driver.Diff
 import RF.Driver.CargoFmt
+import RF.Driver.FormatLines
 /-!
 `rfmodel`: one request per line on stdin, one response per line on stdout.
 `?` is printed for a request no handler understands (the harness treats it as a protocol error,
@@ -8,7 +9,8 @@ never as agreement).  Nothing is proved about this loop; it only routes lines to
 
 def handlers : List (String → List String → Option String) :=
   [RF.Driver.Diff.handle,
-   RF.Driver.CargoFmt.handle]
+   RF.Driver.CargoFmt.handle,
+   RF.Driver.FormatLines.handle]
 
 def dispatch (line : String) : String :=
   match (line.trimAscii.toString.splitOn " ").filter (· ≠ "") with
